@@ -465,7 +465,8 @@ pub fn shapes() -> Vec<Model> {
     out.push(msg1(vec![g(1, vec![("e", MVal::Coll(BTreeMap::new()))])], vec![]));
     out.push(msg1(vec![g(1, vec![("e", chain(3, MVal::Coll(BTreeMap::new()), ""))])], vec![]));
     // chains
-    for d in [2usize, 6, 50, 200] {
+    // every depth up to 20 and the neighbourhood of the powers of two a nesting limit would sit at
+    for d in (2usize..=20).chain([24, 31, 32, 33, 40, 50, 63, 64, 65, 100, 127, 128, 129, 200, 255, 256, 257, 300]) {
         out.push(msg1(vec![g(1, vec![("chain", chain(d, MVal::Integer(d as i32), "n"))])], vec![]));
     }
     // repeated / empty groups incl. a repeated operation group
